@@ -577,6 +577,7 @@ disp_harness! {
     u_dispatch_block_cap1_inherent = (0, 1, 0);
     u_dispatch_block_cap2_dispatcher = (0, 2, 1);
     u_dispatch_block_cap1_trait = (0, 1, 2);
+    u_dispatch_block_cap3_inherent = (0, 3, 0);
     u_dispatch_oldest_cap1_dispatcher = (1, 1, 1);
     u_dispatch_oldest_cap2_inherent = (1, 2, 0);
     u_dispatch_latest_cap1_dispatcher = (2, 1, 1);
